@@ -25,6 +25,7 @@ EXPLANATION = (
     "guarded by a condition that implies a single non-keyword identifier; (when) parsing happens only at listener "
     "registration and failures become InvalidDefinition; (fresh) attribute operands are read inside the closure at every "
     "evaluation. cond/unless conjunction is C01.allof/C01.expected (re-checked here). Values are never evaluated."
+    " Added after seeded batch 9: a guard name means call-or-read decided on the provider object's own attribute (per provider), and the class-level specs a guard is declared by are not written by instance-time code."
 )
 ASSUMPTIONS = ["CPython's ast.parse implements Python precedence/associativity (trusted: it *is* Python's parser)"]
 TRUSTED = ["re._parser (sre_parse) regex AST", "/verif/sa path enumerator"]
